@@ -9,6 +9,8 @@ package main
 //	ins <path> <hexvalue>               Insert
 //	insempty <path>                     Insert of an empty value (must behave as Delete)
 //	insbig <path>                       Insert of a value of MPTMaxAllowableNodeSize+1 bytes (must be rejected)
+//	insfill <path> <len> <bytehex>      Insert of <len> times the byte: stored iff len <= 10 MiB (the SPECIFIED limit,
+//	                                    not read from the code), rejected above
 //	del <path>                          Delete
 //	get <path>                          GetNodeValueRaw
 //	iter                                Iterate (values)
@@ -79,6 +81,40 @@ func rootStr(k util.Key) string {
 }
 
 var bigValue = bytes.Repeat([]byte{0xab}, util.MPTMaxAllowableNodeSize+1)
+
+// specMaxValue: the largest value Insert must accept (bytes of the encoded value). A constant of the specification: the
+// oracle and the model do NOT read it from the code, so a changed limit in the code shows up as a difference.
+const specMaxValue = 10 * 1024 * 1024
+
+// hxv prints a value: hex; a long value made of one repeated byte as "#<len>*<byte>" (exact, so usable by the oracle)
+func hxv(v []byte) string {
+	if len(v) > 64 {
+		uniform := true
+		for _, b := range v {
+			if b != v[0] {
+				uniform = false
+				break
+			}
+		}
+		if uniform {
+			return fmt.Sprintf("#%d*%02x", len(v), v[0])
+		}
+	}
+	return hx(v)
+}
+
+func fmtPairsV(ps []pair) string {
+	var sb strings.Builder
+	for i, p := range ps {
+		if i > 0 {
+			sb.WriteByte(',')
+		}
+		sb.WriteString(ptok(p.path))
+		sb.WriteByte('=')
+		sb.WriteString(hxv(p.val))
+	}
+	return sb.String()
+}
 
 var (
 	rootSeenMu sync.Mutex
@@ -164,6 +200,7 @@ func runMptMap(ops []string, checkCanon bool) CaseResult {
 		res.Fails = append(res.Fails, fmt.Sprintf("op %d (%s): ", i, ops[i])+fmt.Sprintf(f, a...))
 	}
 	mutations := 0
+	collisionFails := 0 // failures that ARE the matched collision of the open finding
 	for i, op := range ops {
 		f := strings.Fields(op)
 		var out string
@@ -186,7 +223,7 @@ func runMptMap(ops []string, checkCanon bool) CaseResult {
 			st.version = v
 			st.mpt.SetVersion(util.Sequence(v))
 			out = "ok"
-		case "ins", "insempty", "insbig", "del":
+		case "ins", "insempty", "insbig", "insfill", "del":
 			path := pathOf(f[1])
 			st.used[path] = true
 			var val []byte
@@ -195,6 +232,16 @@ func runMptMap(ops []string, checkCanon bool) CaseResult {
 				val = unhx(f[2])
 			case "insbig":
 				val = bigValue
+			case "insfill":
+				n, _ := strconv.Atoi(f[2])
+				val = bytes.Repeat(unhx(f[3]), n)
+				// the oracle decides by the specified limit
+				if n > specMaxValue {
+					f[0] = "insbig"
+				} else {
+					f[0] = "ins"
+					tags[fmt.Sprintf("stored-value-len=%d", n)] = true
+				}
 			}
 			before := st.mpt.GetRoot()
 			ccBefore, szBefore := st.mpt.GetChangeCount(), st.mpt.GetNodeDB().Size(context.Background())
@@ -274,11 +321,11 @@ func runMptMap(ops []string, checkCanon bool) CaseResult {
 				if err != nil {
 					return errKind(err)
 				}
-				return "ok " + hx(v)
+				return "ok " + hxv(v)
 			})
 			want := "notpresent"
 			if v, ok := st.content[path]; ok {
-				want = "ok " + hx(v)
+				want = "ok " + hxv(v)
 			}
 			if out != want {
 				fail(i, "lookup returned %q, want %q", out, want)
@@ -289,9 +336,9 @@ func runMptMap(ops []string, checkCanon bool) CaseResult {
 				if err != nil {
 					return errKind(err)
 				}
-				return "ok " + fmtPairs(ps)
+				return "ok " + fmtPairsV(ps)
 			})
-			if want := "ok " + fmtPairs(sortedPairs(st.content)); out != want {
+			if want := "ok " + fmtPairsV(sortedPairs(st.content)); out != want {
 				fail(i, "iteration returned %q, want %q", out, want)
 			}
 		default:
@@ -306,11 +353,11 @@ func runMptMap(ops []string, checkCanon bool) CaseResult {
 					if err != nil {
 						return errKind(err)
 					}
-					return "ok " + hx(v)
+					return "ok " + hxv(v)
 				})
 				want := "notpresent"
 				if v, ok := st.content[p]; ok {
-					want = "ok " + hx(v)
+					want = "ok " + hxv(v)
 				}
 				if got != want {
 					fail(i, "afterwards lookup(%s) = %q, want %q", p, got, want)
@@ -321,9 +368,9 @@ func runMptMap(ops []string, checkCanon bool) CaseResult {
 				if err != nil {
 					return errKind(err)
 				}
-				return "ok " + fmtPairs(ps)
+				return "ok " + fmtPairsV(ps)
 			})
-			if want := "ok " + fmtPairs(sortedPairs(st.content)); got != want {
+			if want := "ok " + fmtPairsV(sortedPairs(st.content)); got != want {
 				fail(i, "afterwards iteration = %q, want %q", got, want)
 			} else if i%3 == 0 {
 				// the value callbacks do not depend on which other node kinds the caller asked for
@@ -333,7 +380,7 @@ func runMptMap(ops []string, checkCanon bool) CaseResult {
 						if err != nil {
 							return errKind(err)
 						}
-						return "ok " + fmtPairs(ps)
+						return "ok " + fmtPairsV(ps)
 					})
 					if gm != want {
 						fail(i, "afterwards iteration with node-type mask %d reports values %q, want %q", mask, gm, want)
@@ -349,11 +396,11 @@ func runMptMap(ops []string, checkCanon bool) CaseResult {
 					if err != nil {
 						return errKind(err)
 					}
-					return "ok " + hx(v)
+					return "ok " + hxv(v)
 				})
 				want := "notpresent"
 				if v, ok := st.content[p]; ok {
-					want = "ok " + hx(v)
+					want = "ok " + hxv(v)
 				}
 				if got != want {
 					fail(i, "afterwards lookup(%s) through a second trie over the same store = %q, want %q", p, got, want)
@@ -362,7 +409,7 @@ func runMptMap(ops []string, checkCanon bool) CaseResult {
 			if checkCanon && !st.multiV {
 				want := rootStr(canonRoot(st.content, st.version))
 				if got := rootStr(st.mpt.GetRoot()); got != want {
-					fail(i, "root %s differs from the canonical root %s of the content %s", got, want, fmtPairs(sortedPairs(st.content)))
+					fail(i, "root %s differs from the canonical root %s of the content %s", got, want, fmtPairsV(sortedPairs(st.content)))
 				} else {
 					ck := contentKey(st.version, st.content)
 					rk := strconv.FormatInt(st.version, 10) + "|" + got
@@ -371,6 +418,7 @@ func runMptMap(ops []string, checkCanon bool) CaseResult {
 						fail(i, "two different contents share root %s: %s vs %s", got, prev, ck)
 						if typeConfusion(prev, ck) {
 							res.Finding = "C02-type-confusion"
+							collisionFails++
 						}
 					}
 					rootSeen[rk] = ck
@@ -381,6 +429,9 @@ func runMptMap(ops []string, checkCanon bool) CaseResult {
 	}
 	for t := range tags {
 		res.Tags = append(res.Tags, t)
+	}
+	if len(res.Fails) > collisionFails {
+		res.Finding = "" // at least one failure is not the collision the open finding describes: report the case
 	}
 	res.Nontrivial = mutations >= 2
 	return res
@@ -460,6 +511,9 @@ func genValue(r *rand.Rand) string {
 
 func genMptMap(fixedVersion bool) func(r *rand.Rand, tier string, idx int) []string {
 	return func(r *rand.Rand, tier string, idx int) []string {
+		if !fixedVersion && idx%500 == 123 {
+			return genBigValues(r, idx/500)
+		}
 		stores := []string{"mem", "level", "pndb"}
 		ver := int64(r.Intn(5))
 		if r.Intn(5) == 0 {
@@ -518,6 +572,37 @@ func genMptMap(fixedVersion bool) func(r *rand.Rand, tier string, idx int) []str
 		ops = append(ops, "iter")
 		return ops
 	}
+}
+
+// genBigValues: short histories that STORE values at the size limit of Insert: exactly MPTMaxAllowableNodeSize (read from
+// lean/Verif/Gen/Constants.lean: the boundary of the code), one less, one more (rejected), lengths at which the ENCODED
+// node straddles the limit (the limit is on the value, not on the node), and 2 MiB; on a leaf and on a branch (a value
+// at a path that is a proper prefix of two other stored paths). One large value per case (the model hashes it per op).
+func genBigValues(r *rand.Rand, k int) []string {
+	max := leanConst("mptMaxAllowableNodeSize", 10*1024*1024)
+	stores := []string{"mem", "level", "pndb"}
+	ops := []string{fmt.Sprintf("new %s %d", stores[k%3], 1+r.Intn(4))}
+	branch := (k%2 == 1) != ((k/6)%2 == 1)
+	path := "ab"
+	ops = append(ops, "ins cd "+genValue(r))
+	overhead := 1 + 8 + 8 + len(path) + 2 // leaf: type, origin, version, prefix+path characters, two separators
+	if branch {
+		ops = append(ops, "ins abcd 4101", "ins abef 4102")
+		overhead = 1 + 8 + 8 + 16 + 2*64 // full node: type, origin, version, 16 separators, two child keys in hex
+	}
+	lens := []int{max, 2 * 1024 * 1024, max - overhead + 1, max - 1, max - overhead, max - overhead - 1}
+	n := lens[k%6]
+	fill := byte(0x41 + r.Intn(26))
+	ops = append(ops, fmt.Sprintf("insfill %s %d %02x", path, n, fill), "get "+path)
+	switch r.Intn(3) {
+	case 0:
+		ops = append(ops, fmt.Sprintf("insfill %s %d %02x", path, max+1, fill), "iter") // rejected, the stored one stays
+	case 1:
+		ops = append(ops, "del "+path, "iter")
+	default:
+		ops = append(ops, "iter")
+	}
+	return ops
 }
 
 // exhaustive small scope: every history of <= 4 mutating ops over paths of length <= 4 on alphabet {a,b}
